@@ -65,9 +65,40 @@ class _Ev(Evaluator):
         self.env = run.env  # live view
         self.folder = run.folder
 
+    def resolve_alias(self, e: ast.AST, depth: int = 0) -> ast.AST:
+        """Follow locals that stand for an object / class / callable (run.alias) and pick the arm of a conditional
+        expression whose test folds."""
+        while depth < 8:
+            depth += 1
+            if isinstance(e, ast.Name) and e.id in self.run.alias and e.id not in self.run.env:
+                e = self.run.alias[e.id]
+                continue
+            if isinstance(e, ast.IfExp):
+                try:
+                    t = self.truth(e.test)
+                except Inconclusive:
+                    return e
+                if t.is_const():
+                    e = e.body if t.const else e.orelse
+                    continue
+            return e
+        return e
+
     def ev(self, e: ast.AST) -> Form:
         if isinstance(e, ast.Name) and e.id in self.run.env:
             return self.run.env[e.id]
+        if isinstance(e, ast.Name) and e.id in self.run.alias:
+            return self.ev(self.resolve_alias(e))
+        if isinstance(e, ast.Call) and (isinstance(e.func, ast.IfExp) or (isinstance(e.func, ast.Name) and e.func.id in self.run.alias and e.func.id not in self.run.env)):
+            f2 = self.resolve_alias(e.func)
+            if f2 is not e.func:
+                e = ast.copy_location(ast.Call(func=f2, args=e.args, keywords=e.keywords), e)
+        if isinstance(e, ast.Attribute) and isinstance(e.value, ast.Name) and e.value.id in self.run.alias and e.value.id not in self.run.env:
+            e = ast.copy_location(ast.Attribute(value=self.resolve_alias(e.value), attr=e.attr, ctx=ast.Load()), e)
+        if isinstance(e, ast.Call) and isinstance(e.func, ast.Attribute) and isinstance(e.func.value, ast.Name) \
+                and e.func.value.id in self.run.alias and e.func.value.id not in self.run.env:
+            e = ast.copy_location(ast.Call(func=ast.Attribute(value=self.resolve_alias(e.func.value), attr=e.func.attr, ctx=ast.Load()),
+                                           args=e.args, keywords=e.keywords), e)
         if isinstance(e, ast.Call):
             c = self.const(e) if not self.run.call_hook_first else None
             if c is not None:
@@ -202,6 +233,7 @@ class AbsRun:
         # tests (source text) under which the statements now running are reached, when a non-constant
         # `break` / conditional store made the rest conditional; hooks may read it
         self.unknown: set = set()
+        self.alias: dict = {}  # local -> expression it stands for (objects, classes, callables: not forms)
         self.lenient = False  # True: statements whose value is outside the domain are skipped unless a hook wants them
         self.guards: list[str] = []
         self._loop_depth = 0
@@ -215,6 +247,19 @@ class AbsRun:
         if d.is_const():
             return b + t.scale(d.const)
         raise Inconclusive(f"the two arms of a branch differ by a non-constant at line {getattr(at, 'lineno', 0)}")
+
+    @staticmethod
+    def _aliasable(v: ast.AST) -> bool:
+        """A name, an attribute chain, or a conditional expression of those: may denote an object rather than a number."""
+        if isinstance(v, ast.Name):
+            return True
+        if isinstance(v, ast.Attribute):
+            return AbsRun._aliasable(v.value)
+        if isinstance(v, ast.IfExp):
+            return AbsRun._aliasable(v.body) and AbsRun._aliasable(v.orelse)
+        if isinstance(v, ast.Call) and isinstance(v.func, ast.Name) and v.func.id == "KEY_ERROR":
+            return True  # the failed-lookup arm of an expanded table
+        return False
 
     def on_call(self, c: ast.Call, ev: Evaluator) -> Optional[Form]:
         if self._hook is not None:
@@ -280,9 +325,18 @@ class AbsRun:
                 if not self.lenient:
                     raise
             return
+        if isinstance(s, ast.Assign) and len(s.targets) == 1 and isinstance(s.targets[0], ast.Name) and self._aliasable(s.value):
+            try:
+                self.env[s.targets[0].id] = self.ev.ev(s.value)
+                self.alias.pop(s.targets[0].id, None)
+            except Inconclusive:
+                self.env.pop(s.targets[0].id, None)
+                self.alias[s.targets[0].id] = self.ev.resolve_alias(s.value)
+            return
         if isinstance(s, ast.Assign) and len(s.targets) == 1 and isinstance(s.targets[0], ast.Name):
             try:
                 self.env[s.targets[0].id] = self.ev.ev(s.value)
+                self.alias.pop(s.targets[0].id, None)
             except Inconclusive:
                 if not self.lenient:
                     raise
@@ -384,6 +438,29 @@ class AbsRun:
                 return
             if self.lenient:
                 return
+        if isinstance(s, ast.While) and not s.orelse:
+            self._loop_depth += 1
+            self._guard_pushed.append(0)
+            try:
+                n_iter = 0
+                while True:
+                    try:
+                        t = self.ev.truth(s.test)
+                    except Inconclusive as exc:
+                        raise Inconclusive(f"while on a non-constant: {ast.unparse(s.test)[:60]} ({exc})")
+                    if not t.is_const():
+                        raise Inconclusive(f"while on a non-constant: {ast.unparse(s.test)[:60]}")
+                    if not t.const:
+                        break
+                    n_iter += 1
+                    if n_iter > 64:
+                        raise Inconclusive("while loop does not end within 64 abstract iterations")
+                    self.block(s.body)
+            finally:
+                self._loop_depth -= 1
+                for _ in range(self._guard_pushed.pop()):
+                    self.guards.pop()
+            return
         if isinstance(s, ast.For) and isinstance(s.target, ast.Name) and isinstance(s.iter, ast.Call) \
                 and isinstance(s.iter.func, ast.Name) and s.iter.func.id in ("range", "reversed"):
             it = s.iter
